@@ -74,3 +74,43 @@ Proof.
   split; [lia|]. replace (n - m)%nat with 0%nat in Hn1 by lia. by inversion Hn1; subst.
 Qed.
 End Balanced.
+
+(* the same when the join may use that every run from the side of the terminating run is bounded (the
+   number of call unfoldings before a process polls its control channel again is bounded that way) *)
+Section BalancedBounded.
+Context {St Ch : Type}.
+Variable stp : St -> Ch -> option St.
+Variable eqv : relation St.
+Context `{!Equivalence eqv}.
+Variable I : St -> Prop.
+Hypothesis stp_eqv : forall c d a c', eqv c d -> stp c a = Some c' -> exists d', stp d a = Some d' /\ eqv c' d'.
+Hypothesis I_stp : forall c a c', I c -> stp c a = Some c' -> I c'.
+Notation bsteps := (bsteps stp).
+Hypothesis balb : forall c a b c1 c2 N, I c -> stp c a = Some c1 -> stp c b = Some c2 ->
+  (forall m c', bsteps m c1 c' -> (m <= N)%nat) ->
+  exists k d1 d2, bsteps k c1 d1 /\ bsteps k c2 d2 /\ eqv d1 d2.
+
+Theorem uniform_balanced_bounded n : forall c t, I c -> bsteps n c t -> bterminal stp t ->
+  forall m c', bsteps m c c' -> (m <= n)%nat /\ exists t', bsteps (n - m) c' t' /\ eqv t' t.
+Proof.
+  induction n as [|n IH]; intros c t HI Hn Ht m c' Hm.
+  - inversion Hn; subst. inversion Hm; subst.
+    + split; [lia|]. eexists. split; [constructor|done].
+    + match goal with H : stp _ _ = Some _ |- _ => by rewrite Ht in H end.
+  - inversion Hn as [|n0 c0 a c1 t0 Hsa Hn1]; subst.
+    inversion Hm as [|m' c0 b c2 t0 Hsb Hm2]; subst.
+    { split; [lia|]. exists t. split; [|done]. replace (S n - 0)%nat with (S n) by lia. done. }
+    assert (Hbound : forall m0 c0', bsteps m0 c1 c0' -> (m0 <= n)%nat).
+    { intros m0 c0' H0. by destruct (IH _ _ (I_stp _ _ _ HI Hsa) Hn1 Ht _ _ H0). }
+    destruct (balb _ _ _ _ _ n HI Hsa Hsb Hbound) as (k & d1 & d2 & Hd1 & Hd2 & Hd).
+    destruct (IH _ _ (I_stp _ _ _ HI Hsa) Hn1 Ht _ _ Hd1) as [Hle1 (t1 & Ht1 & He1)].
+    destruct (bsteps_eqv stp eqv stp_eqv _ _ _ _ Ht1 Hd) as (t2 & Ht2 & He2).
+    assert (Hterm2 : bterminal stp t2).
+    { eapply (bterminal_eqv stp eqv stp_eqv); [exact Ht|]. etrans; [symmetry; exact He1|exact He2]. }
+    assert (Hn2 : bsteps n c2 t2).
+    { replace n with (k + (n - k))%nat by lia. eapply bsteps_trans; eauto. }
+    destruct (IH _ _ (I_stp _ _ _ HI Hsb) Hn2 Hterm2 _ _ Hm2) as [Hle (t' & Ht' & He)].
+    split; [lia|]. exists t'. split; [by replace (S n - S m')%nat with (n - m')%nat by lia|].
+    etrans; [exact He|]. etrans; [symmetry; exact He2|exact He1].
+Qed.
+End BalancedBounded.
